@@ -432,6 +432,105 @@ theorem dataGet_enabled (hg : Gen.Dummy.streamOnlyEnabled = true) (cs : List Cha
       cases this
 
 
+/-! ### invariants of the stream thread over the channel objects -/
+
+/-- the channel objects after a batch: every object after `n` rounds of its own -/
+theorem dataGet_fst (hg : Gen.Dummy.streamOnlyEnabled = true) (cs : List Chan) (n : Nat) :
+    (dataGet cs n).1 = cs.map fun c => chanIter c n := by
+  induction n generalizing cs with
+  | zero => simp [dataGet, chanIter]
+  | succ n ih =>
+    rw [dataGet_succ hg]
+    simp only [ih, List.map_map]
+    rfl
+
+theorem chanIter_fields (c : Chan) (n : Nat) :
+    (chanIter c n).en = c.en ∧ (chanIter c n).type = c.type ∧ (chanIter c n).vdim = c.vdim ∧ (chanIter c n).div = c.div ∧
+    (chanIter c n).mlen = c.mlen ∧ (chanIter c n).name = c.name ∧ (chanIter c n).gen = c.gen := by
+  induction n generalizing c with
+  | zero => simp [chanIter]
+  | succ n ih =>
+    obtain ⟨a1, a2, a3, a4, a5, a6, a7⟩ := stepChan_fields c
+    obtain ⟨b1, b2, b3, b4, b5, b6, b7⟩ := ih (stepChan c)
+    simp only [chanIter]
+    exact ⟨b1.trans a1, b2.trans a2, b3.trans a3, b4.trans a4, b5.trans a5, b6.trans a6, b7.trans a7⟩
+
+theorem ChanOk.of_fields {c d : Chan} (h : ChanOk c) (h1 : d.type = c.type) (h2 : d.vdim = c.vdim) (h3 : d.div = c.div)
+    (h4 : d.mlen = c.mlen) (h5 : d.name = c.name) : ChanOk d :=
+  ⟨by rw [h1]; exact h.type, by rw [h2]; exact h.vdim, by rw [h3]; exact h.div0, by rw [h3]; exact h.div,
+   by rw [h4]; exact h.mlen, by rw [h5]; exact h.name⟩
+
+theorem ChanOk.chanIter {c : Chan} (h : ChanOk c) (n : Nat) : ChanOk (chanIter c n) := by
+  obtain ⟨_, a2, a3, a4, a5, a6, _⟩ := chanIter_fields c n
+  exact h.of_fields a2 a3 a4 a5 a6
+
+/-- every round is one more `data_get()` call on an enabled channel with a function attached -/
+theorem chanIter_calls (c : Chan) (n k : Nat) (hen : c.en = true) (hg : c.gen = some k) : (chanIter c n).calls = c.calls + n := by
+  induction n generalizing c with
+  | zero => rfl
+  | succ n ih =>
+    have hs : stepChan c = c.dataGet.1 := by simp [stepChan, hen]
+    obtain ⟨f1, _, _, _, _, _, f7⟩ := stepChan_fields c
+    have hcalls : (stepChan c).calls = c.calls + 1 := by
+      rw [hs]; unfold Chan.dataGet; rw [hg]
+    simp only [chanIter]
+    rw [ih (stepChan c) (by rw [f1]; exact hen) (by rw [f7]; exact hg), hcalls]
+    omega
+
+/-- a batch keeps every channel's description within the info frames -/
+theorem chanOk_dataGet (hg : Gen.Dummy.streamOnlyEnabled = true) (cs : List Chan) (n : Nat) (h : ∀ c ∈ cs, ChanOk c) :
+    ∀ c ∈ (dataGet cs n).1, ChanOk c := by
+  rw [dataGet_fst hg]
+  intro c hc
+  obtain ⟨c0, h0, rfl⟩ := List.mem_map.mp hc
+  exact (h c0 h0).chanIter n
+
+theorem chanOk_withEns (cs : List Chan) (vs : List Bool) (h : ∀ c ∈ cs, ChanOk c) : ∀ c ∈ withEns cs vs, ChanOk c := by
+  induction cs generalizing vs with
+  | nil => intro c hc; simp [withEns] at hc
+  | cons x xs ih =>
+    cases vs with
+    | nil => intro c hc; simp [withEns] at hc
+    | cons v vs =>
+      intro c hc
+      simp only [withEns, List.zipWith_cons_cons, List.mem_cons] at hc
+      rcases hc with rfl | hc
+      · exact (h x (by simp)).of_fields rfl rfl rfl rfl rfl
+      · exact ih vs (fun c hc => h c (by simp [hc])) c hc
+
+theorem chanOk_withDivs (cs : List Chan) (vs : List Int) (h : ∀ c ∈ cs, ChanOk c) (hv : ∀ v ∈ vs, 0 ≤ v ∧ v ≤ 255) :
+    ∀ c ∈ withDivs cs vs, ChanOk c := by
+  induction cs generalizing vs with
+  | nil => intro c hc; simp [withDivs] at hc
+  | cons x xs ih =>
+    cases vs with
+    | nil => intro c hc; simp [withDivs] at hc
+    | cons v vs =>
+      intro c hc
+      simp only [withDivs, List.zipWith_cons_cons, List.mem_cons] at hc
+      rcases hc with rfl | hc
+      · have hx := h x (by simp)
+        have := hv v (by simp)
+        exact ⟨hx.type, hx.vdim, this.1, this.2, hx.mlen, hx.name⟩
+      · exact ih vs (fun c hc => h c (by simp [hc])) (fun v hv' => hv v (by simp [hv'])) c hc
+
+/-- the receive thread never touches the stream thread's state -/
+theorem handle_streamThr (cs : List Chan) (i : Inst) (d : Bytes) : (handle cs i d).2.1.streamThr = i.streamThr := by
+  unfold handle
+  split
+  · rfl
+  · rfl
+  · split <;> rfl
+
+theorem recvStep_streamThr (cs : List Chan) (i : Inst) : (recvStep cs i).2.1.streamThr = i.streamThr := by
+  unfold recvStep
+  split
+  · rfl
+  · split
+    · rfl
+    · exact handle_streamThr cs _ _
+
+
 /-! ### what set requests leave alone -/
 
 /-- everything of a channel object except enable and divider -/
